@@ -120,6 +120,13 @@ func (c17) Generate(r *core.Rand, tier string, idx uint64) *core.Case {
 		b.add(world.Op{Kind: "readTip", Actor: 3, N: i})
 	}
 	c.Config["strategy"] = r.Intn(3) // 0 uniform, 1 PCT, 2 mostly-sequential with one pre-emption
+	if tier == "thorough" && idx%4 == 0 {
+		// bounded sweep: task `first` runs alone until step `at`, then another task runs to completion, then the rest
+		c.Config["strategy"] = 3
+		c.Config["sweepFirst"] = int(idx/4) % 3
+		c.Config["sweepAt"] = int(idx/12) % 14
+		c.Config["sweepOther"] = int(idx/168) % 2
+	}
 	c.Ops = b.ops
 	return c
 }
@@ -321,6 +328,34 @@ func (d c17) Execute(c *core.Case) *core.Result {
 				}
 			}
 			return best
+		case 3: // systematic single pre-emption
+			first := c.Config["sweepFirst"] % len(tasks)
+			pick := func(id int) int {
+				for i, t := range runnable {
+					if t.ID == id {
+						return i
+					}
+				}
+				return -1
+			}
+			if step < c.Config["sweepAt"] {
+				if i := pick(first); i >= 0 {
+					return i
+				}
+				return 0
+			}
+			// the pre-empting task: the next id after first (or the one after that)
+			other := (first + 1 + c.Config["sweepOther"]) % len(tasks)
+			if other == first {
+				other = (first + 1) % len(tasks)
+			}
+			if i := pick(other); i >= 0 {
+				return i
+			}
+			if i := pick(first); i >= 0 {
+				return i
+			}
+			return 0
 		case 2: // run task 0 to completion except for one pre-emption window
 			if step == preemptAt && len(runnable) > 1 {
 				return 1 + rng.Intn(len(runnable)-1)
